@@ -179,6 +179,17 @@ def run(ctx):
                                "after the extension map has been appended the buffer is modified again (%s): the embedded map is no longer one complete trailing item" %
                                [x.show()[:60] for x in after] if len(ext) == 1 else "the extension map is appended %d times" % len(ext), cfg=cfg, where=ad["sp"])
                 ctx.oblige("C03|authdata|extension-paths", n_ext >= 1, "no path appends the extension map with cbor_serialize_to", cfg=cfg)
+                # cbor_serialize_to streams into the buffer: when it fails part-way the bytes written so far stay there, so a path on
+                # which it failed (or its Result was dropped) must not return Ok with that buffer
+                for pth in ch.paths:
+                    if ch.outcome(pth) not in ("ok", "returned"):
+                        continue
+                    for e in pth.effects:
+                        if e.kind == "call" and e.callee in CBOR_TO:
+                            fate = ch.fate(pth, e)
+                            ctx.oblige("C03|authdata|extension-complete", fate in ("ok", "returned"),
+                                       "AuthenticatorData::serialize can return Ok although appending the extension map %s: a partial CBOR map would be left in the authenticator data" %
+                                       ("failed" if fate == "err" else "was not checked (Result dropped)"), cfg=cfg, where=H.line(e.node))
         # type closure
         roots = []
         renum = F.adt(ROOT_ENUM)
